@@ -52,6 +52,9 @@ def run(ctx):
     wiring.params_used(ctx, "C01.b", wiring.funcs_of(m, "_facade", "_construction", only={"h1", "calculate_1d_frequencies", "calculate_1d_bins",
                        "extract_1d_array", "extract_weights"}) + [m.cls("Histogram1D").methods[x] for x in ("__init__", "from_calculate_frequencies")],
                        "h1-chain:options-read")
+    wiring.same_name_forwarding(ctx, "C01.b", m, wiring.funcs_of(m, "_facade", "_construction", only={"h1", "calculate_1d_frequencies", "calculate_1d_bins",
+                       "extract_1d_array", "extract_weights"}) + [m.cls("Histogram1D").methods[x] for x in ("__init__", "from_calculate_frequencies")],
+                       "h1-chain:options-forwarded")
     ctx.rule("C01.c", "kernel results -> constructor parameters of the same role in every caller; dtype / keep_missed forwarded", 4)
     rets = [n for n in ast.walk(kern.node) if isinstance(n, ast.Return) and isinstance(n.value, ast.Tuple) and len(n.value.elts) == 5]
     order = [[U(e) for e in r.value.elts] for r in rets]
